@@ -59,7 +59,7 @@ def run(c):
     cases.append({"id": len(cases), "fault": "ptrace_runner"})
     # the launching process is killed while the callback runs (theorem C07_launcher_death)
     for k in range(4 if c.quick() else 24):
-        cases.append({"id": len(cases), "fault": "launcher_death", "userns": k % 2 == 1, "delay_ms": [0, 1, 5, 30][k % 4] if k < 4 else c.rng.randrange(0, 60)})
+        cases.append({"id": len(cases), "fault": "launcher_death", "userns": k % 2 == 1, "delay_ms": [0, 1, 5, 30][k % 4] if k < 4 else r7.randrange(0, 60)})
     obs = c.run_harness(exe, cases, env=env, timeout=900)
     items, idx, dis = [], [], []
     ditems, didx = [], []
